@@ -28,6 +28,7 @@ def check(ck):
     r02_2(ck)
     r02_4(ck)
     r02_5(ck, sa)
+    r02_6(ck, sa)
 
 
 def entry_time_at_start(st, key):
@@ -259,3 +260,25 @@ def r02_5(ck, sa):
             v.rule = 'R02.5'
     ck.rules.pop('R03.3', None)
     ck.floors = [fl for fl in ck.floors]
+
+
+def r02_6(ck, sa):
+    ck.rule('R02.6', 'the update is applied when its interval ends and the '
+            'process is asked, not the wrapper: take under the due-time '
+            'guard (C01 R01.3), scheduling members of a parallel process '
+            'forwarded on every path (C13 R13.1), every process accounted '
+            'for and quiet entries brought to the clock with every advance '
+            '(C03 R03.1)')
+    from . import c01, c03, c13
+    c01.r01_3(ck, sa.rf)
+    c13.r13_1(ck, only=('update_condition', 'next_update',
+                        'calculate_timestep'), rule='R02.6')
+    c03.r03_1(ck, sa)
+    for o in ck.obligations:
+        if o['rule'] in ('R01.3', 'R03.1'):
+            o['rule'] = 'R02.6'
+    for v in ck.violations:
+        if v.rule in ('R01.3', 'R03.1'):
+            v.rule = 'R02.6'
+    for r in ('R01.3', 'R03.1'):
+        ck.rules.pop(r, None)
